@@ -1154,3 +1154,15 @@ var _ = late(func() {
 		Clause: "same rule as C01.bounds, far end only: a bounded Range / RangeReverse always wraps the cursor's iterator in the While that enforces the far bound, and the plain iterator is returned only under the Unbounded kind - a shortcut taken from the tree's contents when the range is created lets keys put beyond the bound during the iteration through",
 		Run:    subRule(ruleTreeBounds, "|far:", "|plain-iterator", "|while-outside-kind-test")})
 })
+
+var _ = late(func() {
+	properties["C08"].Rules = append(properties["C08"].Rules, &Rule{ID: "C08.group-ctx", Floor: 2,
+		Clause: "same rule as C14.bg-ctx, context arguments only: in parallel.MapStream the source's Next and f receive the errgroup's own context - the one the first failing call cancels - not an ancestor of it: a reader blocked in Next on an ancestor context is not woken by the failure, the group never finishes and the consumer waits for the error in vain",
+		Run:    subRule(func(c *Ctx, r *R) { ruleBgCtx(c, r, "parallel.MapStream") }, "|ctx-arg|")})
+})
+
+var _ = late(func() {
+	properties["C09"].Rules = append(properties["C09"].Rules, &Rule{ID: "C09.wg-count", Floor: 2,
+		Clause: "same rule as C11.wg-count / C12.wg-count: the goroutines that own (and eventually close) the sources of stream.Merge and stream.BatchFunc are added to the WaitGroup BEFORE they are started, and defer wg.Done() first: with the Add inside the goroutine a Close right after construction finds the counter at zero and returns while the sources are still open (and about to be used)",
+		Run:    func(c *Ctx, r *R) { ruleWgCount(c, r, "stream.Merge", "stream.BatchFunc") }})
+})
